@@ -283,6 +283,13 @@ impl<'a> Instance<'a> {
                 self.host.trace.push(Ev::Choose(v));
                 Ok(vec![Val::I32(v)])
             }
+            ("helper", [Val::I32(a), Val::I32(b)]) => {
+                // same observable behaviour as the built body `progen::helper_body`
+                let m = crate::progen::HELPER_MAGIC;
+                self.host.trace.push(Ev::Enter(m));
+                self.host.trace.push(Ev::Leave(m, LeaveHow::Normal));
+                Ok(vec![Val::I32(a.wrapping_mul(3).wrapping_add(*b))])
+            }
             ("sink", [Val::I64(v)]) => {
                 self.host.trace.push(Ev::Sink(*v));
                 Ok(vec![])
